@@ -83,7 +83,7 @@ struct Series {
     tags: String,
 }
 impl Series {
-    fn f(&self) -> Vec<f64> { self.xs.iter().map(|x| x.unwrap_or(f64::NAN)).collect() }
+    fn f(&self) -> Vec<f64> { self.xs.iter().enumerate().map(|(i, x)| x.unwrap_or(vh::nan_at(i))).collect() }
     fn o(&self) -> Vec<Option<f64>> { self.xs.clone() }
     fn i(&self) -> Vec<i32> { self.xs.iter().map(|x| x.unwrap() as i32).collect() }
     fn integral(&self) -> bool { self.xs.iter().all(|x| x.map_or(true, |v| v.fract() == 0.0 && v.abs() < 1e9)) }
